@@ -24,7 +24,8 @@ impl<const A: u64, const C: u64> LinearCongruentialGenerator64<A, C> {
 
     pub fn next_raw(&mut self) -> u64 {
         self.state = self.state.wrapping_mul(A).wrapping_add(C);
-        self.state
+        // low bits of an LCG with a power-of-two modulus have short periods, so fold the high half into them
+        self.state ^ (self.state >> 32)
     }
 }
 
